@@ -62,6 +62,20 @@ def check_tree():
     return got == want, got
 
 
+def anchored_files(pid):
+    out = []
+    try:
+        with open(os.path.join(HERE, 'properties.jsonl')) as f:
+            for line in f:
+                if line.strip():
+                    p = json.loads(line)
+                    if p.get('id') == pid:
+                        out = [x for x in p.get('anchors', {}).get('files', []) if x.endswith('.py')]
+    except OSError:
+        pass
+    return out
+
+
 def run_worker(pid, shard, tmpdir, idx, timeout):
     sp = os.path.join(tmpdir, f'shard{idx}.json')
     op = os.path.join(tmpdir, f'out{idx}.json')
@@ -239,6 +253,23 @@ def main(argv=None):
     for k, v in m['extra'].items():
         if k not in coverage:
             coverage[k] = v
+    try:
+        from rv import reach as _reach
+
+        merged_reach = _reach.merge_reports(r.get('reach') for r in reports)
+        if merged_reach:
+            coverage['code_reach'] = {
+                'what': 'functions, lines and branch arms of the anchored source files that the workload of this '
+                        'run executed (reach monitor, sys.monitoring LINE/BRANCH); informational, decides nothing',
+                'files': _reach.summarise(os.environ.get('RV_REPO_SRC', '/repo/src'), merged_reach,
+                                          anchored_files(pid)),
+            }
+            if os.environ.get('RV_REACH_DUMP'):
+                with open(os.environ['RV_REACH_DUMP'], 'w') as f:
+                    json.dump({fn: {k: {'lines': sorted(v['lines']), 'arms': sorted(map(list, v['arms']))}
+                                    for k, v in d.items()} for fn, d in merged_reach.items()}, f)
+    except Exception as e:  # noqa: BLE001
+        coverage['code_reach'] = {'error': repr(e)}
     verdict = 'held'
     if unlisted or dropped_unknown:
         verdict = 'violated'
